@@ -44,7 +44,7 @@ func randParams(r *vf.Rng) Params {
 		MaxRewardsPeriod: uint64(1 + r.Intn(3)),
 		ExpelDS:          uint64(3 + r.Intn(10)),
 		ExpelInactive:    uint64(2 + r.Intn(5)),
-		FracDS:           []uint64{1, 2, 2, 2, 5, 50}[r.Intn(6)],
+		FracDS:           []uint64{1, 2, 2, 2, 2, 5, 50, 2, 2, 2, 2, 2, 5, 50, 2, 2, 2, 2, 2, 5, 50, 2, 2, 2, 0}[r.Intn(25)],
 		FracInactive:     uint64(r.Intn(2)),
 		InactWait:        uint64(2 + r.Intn(11)),
 		StakeLookBack:    uint64(2 + r.Intn(3)),
@@ -117,6 +117,11 @@ func randTx(r *vf.Rng, nv int) TxIn {
 	if r.Chance(3) {
 		t.NonceDelta = 1 + r.Intn(2) // a gap: stays queued in the pool
 	}
+	if r.Chance(4) {
+		// most of the balance: a second one in the same block passes the pool (which
+		// checks every transaction against the head state) and fails in the worker
+		t = TxIn{Kind: "transfer", From: from, To: (from + 1) % nAcct, Value: "600" + YOU, Gas: 21000, Price: uint64(16*(1+r.Intn(4)) + from)}
+	}
 	return t
 }
 
@@ -161,6 +166,7 @@ func randHistory(r *vf.Rng, maxBlocks int) *History {
 		present = append(present, i)
 	}
 	h.Vals[0].Online = true
+	h.Vals[1].Online = true
 	nb := 3 + r.Heavy(maxBlocks)
 	for i := 0; i < nb; i++ {
 		b := BlockIn{Proposer: present[r.Intn(len(present))]}
@@ -185,6 +191,9 @@ func randHistory(r *vf.Rng, maxBlocks int) *History {
 				}
 			}
 			b.Txs = append(b.Txs, t)
+			if t.Kind == "transfer" && t.Value == "600"+YOU {
+				b.Txs = append(b.Txs, t)
+			}
 		}
 		num := uint64(i + 1)
 		if r.Chance(22) {
@@ -327,6 +336,12 @@ func judge(h *History, obs []*BlockObs, crashed string, v *verdicts) {
 			break
 		}
 		v.counts["blocks_built"]++
+		if !h.Plain {
+			v.counts["txs_submitted"] += o.Submitted
+			v.counts["txs_refused_by_pool"] += len(o.PoolErrs)
+			v.counts["txs_included"] += o.NTx
+			v.counts["txs_skipped_by_worker_or_queued"] += o.Submitted - len(o.PoolErrs) - o.NTx
+		}
 		if o.NTx > 0 {
 			v.counts["blocks_with_txs"]++
 		}
@@ -357,6 +372,11 @@ func judge(h *History, obs []*BlockObs, crashed string, v *verdicts) {
 			}
 			break
 		}
+		for _, t := range o.TamperAccepted {
+			v.counts["tamper_accepted"]++
+			add(&v.hits, "a block whose header commitment was altered is still accepted by Process + ValidateState", o, "altered field: "+t)
+		}
+		v.counts["tamper_rejected"] += o.TamperRejected
 		if o.HeadMovedDiff != "" {
 			if o.SlashData != "" {
 				v.counts["finding_head_moved"]++
@@ -622,8 +642,15 @@ func gen(seed uint64, n int, outDir, corpusDir string, procs int) {
 	for _, hgt := range v.hits {
 		res.OracleHits = append(res.OracleHits, hgt)
 	}
+	// open findings go to the oracle hits under their stable key (the driver
+	// matches them with known_findings.json); two witnesses per key are enough
+	perKey := map[string]int{}
 	for _, k := range v.known {
 		res.Known = append(res.Known, map[string]interface{}{"what": k.What, "block": k.Block, "detail": k.Detail})
+		if perKey[k.What] < 2 {
+			perKey[k.What]++
+			res.OracleHits = append(res.OracleHits, k)
+		}
 	}
 	for i, h := range hist {
 		if i < 3 {
@@ -708,6 +735,10 @@ func replay(file string) {
 	if len(v.known) > 0 && os.Getenv("C06_STRICT") != "" {
 		fmt.Println("ORACLE VIOLATION:", v.known[0].What)
 		os.Exit(1)
+	}
+	if len(v.known) > 0 {
+		fmt.Println("no violation outside the listed findings on this history")
+		return
 	}
 	fmt.Println("property holds on this history")
 }
